@@ -19,6 +19,18 @@ SYNTAX_STATE = ["7 `[]", "1 2 3 ``[] swap drop", "1 2 3 4 ```[5, 6]", "1 (== 1)"
                 '"%( 1 %)%( "]" %)"', "(1, 2) (3, 4)", "let A := 1; A", "1 (|A| A A add)", "{1} apply"]
 
 
+def nested_splices(n):
+    t = "1"
+    for _ in range(n):
+        t = '"%( ' + t + ' %)"'
+    return t
+
+
+# texts at and beyond the limits at which a query is refused, and other refused texts: a refusal must leave nothing behind
+SYNTAX_STATE += [nested_splices(99), nested_splices(100), nested_splices(3), "[" * 330 + "]" * 330, "[" * 600 + "]" * 600, "1 )", '"abc', "let A := ;", '"%( 1 "',
+                 nested_splices(100), nested_splices(99)]
+
+
 def reference(text, inp):
     """Result sequence of a fresh process."""
     d = common.Driver()
@@ -198,11 +210,16 @@ def job_syntax_state(payload):
             if t not in refs:
                 refs[t] = reference(t, "")
         try:
-            d.req("parse id=pa q=%s" % common.hx(a))
-            d.req("parse id=pb q=%s" % common.hx(b))
+            va = d.req("parse id=pa q=%s" % common.hx(a))
+            vb = d.req("parse id=pb q=%s" % common.hx(b))
             out["compile_pairs"] += 1
+            for t, v in ((a, va), (b, vb)):
+                if (v["st"] == "reject") != (refs[t]["st"] == "reject"):
+                    out["bad"].append(("impure:compile-verdict-depends-on-what-was-compiled-before", dict(first=a[:80], second=b[:80], affected=t[:80],
+                                                                                                         here=v["st"], fresh=refs[t]["st"], msg=v.get("msg"))))
             for qid, t in (("pb", b), ("pa", a)):
-                d.req("exec qid=%s rid=rp in=" % qid)
+                if d.req("exec qid=%s rid=rp in=" % qid)["st"] != "ok":
+                    continue        # that text was refused (verdict compared above)
                 r = d.req("next rid=rp max=300 fuel=200000")
                 d.req("rdestroy rid=rp")
                 if [ser(x) for x in r.get("res", [])] != [ser(x) for x in refs[t]["res"]]:
